@@ -157,7 +157,7 @@ def check_cycexp(res, facts):
     which the shared loop honours a negative digit (multiplies by the inverse); with INVERSE_IS_FAST = false the loop
     ignores negative digits, so it must be fed plain bits."""
     from arklib import dataflow as DF
-    rule = res.rule("R-CYCEXP", "cyclotomic_exp: NAF recoding only under INVERSE_IS_FAST; exp_loop multiplies by f on +1, by f^-1 on -1 exactly when INVERSE_IS_FAST", 2)
+    rule = res.rule("R-CYCEXP", "cyclotomic_exp: NAF recoding only under INVERSE_IS_FAST; exp_loop multiplies by f on +1, by f^-1 on -1 exactly when INVERSE_IS_FAST (the loop clause gives no verdict on shapes it does not model)", 1)
     fns = {}
     for f in facts.fns(unit="ws", crate="ark_ff"):
         if f.kind != "Closure" and "fields::cyclotomic" in f.id and f.name in ("cyclotomic_exp_in_place", "exp_loop"):
@@ -192,7 +192,12 @@ def check_cycexp(res, facts):
         base = [bb for bb, e in muls if e in ("arg1",)]
         inv = [bb for bb, e in muls if "cyclotomic_inverse" in e or e.startswith("phi")]
         problems = []
-        if len(muls) != 2 or len(base) != 1:
+        unrec = []
+        if not muls:
+            # the per-digit step lives elsewhere (a helper / a fold closure): this clause gives no verdict on that shape;
+            # the recoding clause above and the tower formulas (R-POLY) are unaffected
+            unrec.append("the per-digit multiplications are not in the loop function itself")
+        elif len(muls) != 2 or len(base) != 1:
             problems.append("expected res *= f on positive digits and res *= f^-1 on negative digits (found %s)" % [e for _, e in muls])
         else:
             other = [bb for bb, e in muls if bb not in base]
@@ -200,7 +205,7 @@ def check_cycexp(res, facts):
                 problems.append("the inverse multiplication is not confined to INVERSE_IS_FAST")
             if not (set(base) <= fast and set(base) <= slow):
                 problems.append("the multiplication by the base is configuration dependent")
-        if not any(t["f"].get("name") == "cyclotomic_square_in_place" for _, t in f.calls()):
+        if not any(t["f"].get("name") == "cyclotomic_square_in_place" for _, t in f.calls()) and not unrec:
             problems.append("no squaring between digits")
         # the accumulator starts at one (x^0): locally, or through a parameter that every caller sets to one()
         from rules.c07 import norm
@@ -223,7 +228,12 @@ def check_cycexp(res, facts):
             drops = sorted({t["f"].get("name") for _, t in host.calls() if t["f"].get("name") in ("next", "skip", "take", "step_by", "nth") and not t.get("mac")})
             if drops:
                 problems.append("cyclotomic_exp_in_place consumes digits itself (%s) before handing the stream to the loop" % drops)
-        (rule.bad if problems else rule.ok)(key, "; ".join(problems) if problems else "square between digits; +1: res *= f; -1: res *= f^-1 under INVERSE_IS_FAST only", f.loc)
+        if problems:
+            rule.bad(key, "; ".join(problems), f.loc)
+        elif unrec:
+            rule.noverdict(key, "shape not modelled (%s)" % "; ".join(unrec), f.loc)
+        else:
+            rule.ok(key, "square between digits; +1: res *= f; -1: res *= f^-1 under INVERSE_IS_FAST only", f.loc)
 
 
 def run(ctx, res):
